@@ -27,6 +27,11 @@ class PolyplyParser(ITPDirector):
     def __init__(self, force_field):
         super().__init__(force_field)
         self.citations = set()
+        # the blocks and links the force field holds before
+        # this file is read; their edges have been made by
+        # the parser that read them
+        self.known_blocks = dict(force_field.blocks)
+        self.known_links = len(force_field.links)
 
     @SectionLineParser.section_parser('moleculetype', 'citation')
     def _parse_citation(self, line, lineno=0):
@@ -139,12 +144,14 @@ class PolyplyParser(ITPDirector):
             self.force_field.links.append(link)
 
     def _make_edges(self):
-       for block in self.force_field.blocks.values():
+       for name, block in self.force_field.blocks.items():
+           if self.known_blocks.get(name) is block:
+               continue
            inter_types = list(block.interactions.keys())
            for inter_type in inter_types:
                block.make_edges_from_interaction_type(type_=inter_type)
 
-       for link in self.force_field.links:
+       for link in self.force_field.links[self.known_links:]:
            inter_types = list(link.interactions.keys())
            for inter_type in inter_types:
                link.make_edges_from_interaction_type(type_=inter_type)
